@@ -194,11 +194,13 @@ type StreamFactory interface {
 }
 
 func (p *StreamPool) connections() []*connection {
+	verifYield("conns.rlock", p)
 	p.mu.RLock()
 	conns := make([]*connection, 0, len(p.conns))
 	for _, conn := range p.conns {
 		conns = append(conns, conn)
 	}
+	verifOrder(p, conns)
 	p.mu.RUnlock()
 	return conns
 }
@@ -241,6 +243,7 @@ func (a *Assembler) FlushWithOptions(opt FlushOptions) (flushed, closed int) {
 	flushes := 0
 	for _, conn := range conns {
 		flushed := false
+		verifYield("flush.connlock", conn)
 		conn.mu.Lock()
 		if conn.closed {
 			// Already closed connection, nothing to do here.
@@ -280,6 +283,7 @@ func (a *Assembler) FlushAll() (closed int) {
 	conns := a.connPool.connections()
 	closed = len(conns)
 	for _, conn := range conns {
+		verifYield("flush.connlock", conn)
 		conn.mu.Lock()
 		for !conn.closed {
 			a.skipFlush(conn)
@@ -496,6 +500,7 @@ func (p *StreamPool) newConnection(k key, s Stream, ts time.Time) (c *connection
 // does not already exist, returns nil.  This allows us to check for a
 // connection without actually creating one if it doesn't already exist.
 func (p *StreamPool) getConnection(k key, end bool, ts time.Time) *connection {
+	verifYield("get.rlock", p)
 	p.mu.RLock()
 	conn := p.conns[k]
 	p.mu.RUnlock()
@@ -503,6 +508,7 @@ func (p *StreamPool) getConnection(k key, end bool, ts time.Time) *connection {
 		return conn
 	}
 	s := p.factory.New(k[0], k[1])
+	verifYield("get.lock", p)
 	p.mu.Lock()
 	conn = p.newConnection(k, s, ts)
 	if conn2 := p.conns[k]; conn2 != nil {
@@ -558,6 +564,7 @@ func (a *Assembler) AssembleWithTimestamp(netFlow gopacket.Flow, t *layers.TCP, 
 			}
 			return
 		}
+		verifYield("asm.connlock", conn)
 		conn.mu.Lock()
 		if !conn.closed {
 			break
@@ -660,6 +667,7 @@ func (a *Assembler) skipFlush(conn *connection) {
 }
 
 func (p *StreamPool) remove(conn *connection) {
+	verifYield("remove.lock", p)
 	p.mu.Lock()
 	delete(p.conns, conn.key)
 	p.free = append(p.free, conn)
